@@ -1,3 +1,105 @@
 //! verification hooks: walletx (guarded by cfg ordinals_ord_verif)
+//!
+//! Thin wrappers that let an external harness drive the wallet commands
+//! in-process exactly as the command line does (`Arguments::try_parse_from` +
+//! `Arguments::run`), run an `ord server` on an already opened index, and read
+//! rune balances of an output from that index. Nothing here re-implements
+//! wallet logic.
 #![allow(unused_imports, dead_code)]
 use super::*;
+
+pub use crate::subcommand::wallet::split::verif as split;
+
+/// An in-process `ord server` and the index it serves.
+pub struct ServerHandle {
+  pub port: u16,
+  pub index: Arc<Index>,
+  handle: axum_server::Handle<SocketAddr>,
+}
+
+impl ServerHandle {
+  pub fn url(&self) -> String {
+    format!("http://127.0.0.1:{}", self.port)
+  }
+
+  /// Bring the index up to the node's tip (the harness runs the server with
+  /// `--no-sync`, so indexing happens only here, deterministically).
+  pub fn update(&self) -> Result<(), String> {
+    self.index.update().map_err(|err| format!("{err:#}"))
+  }
+
+  /// Rune balances of an output according to the index: (rune id, amount),
+  /// sorted by id. `None` if the index has no rune index.
+  pub fn rune_balances(&self, outpoint: OutPoint) -> Option<Vec<(RuneId, u128)>> {
+    let balances = self.index.get_rune_balances_for_output(outpoint).unwrap()?;
+    let mut result = Vec::new();
+    for (spaced_rune, pile) in balances {
+      let (id, _, _) = self.index.rune(spaced_rune.rune).unwrap().unwrap();
+      result.push((id, pile.amount));
+    }
+    result.sort();
+    Some(result)
+  }
+
+  /// `(id, burned, divisibility)` of a rune.
+  pub fn rune_entry(&self, rune: Rune) -> Option<(RuneId, u128, u8)> {
+    let (id, entry, _) = self.index.rune(rune).unwrap()?;
+    Some((id, entry.burned, entry.divisibility))
+  }
+
+  /// Inscriptions on an output according to the index (`None` without an inscription index).
+  pub fn inscriptions(&self, outpoint: OutPoint) -> Option<Vec<InscriptionId>> {
+    self
+      .index
+      .get_inscriptions_for_output(outpoint)
+      .unwrap()
+  }
+
+  pub fn shutdown(&self) {
+    self.handle.shutdown();
+  }
+}
+
+/// `args` is a complete command line `ord <options> server <server options>`.
+pub fn spawn_server(args: &str) -> ServerHandle {
+  let (settings, server) = parse_ord_server_args(args);
+  let index = Arc::new(Index::open(&settings).unwrap());
+  let handle = axum_server::Handle::new();
+  let (tx, rx) = std::sync::mpsc::channel();
+  {
+    let index = index.clone();
+    let handle = handle.clone();
+    thread::spawn(move || {
+      let _ = server.run(settings, index, handle, Some(tx));
+    });
+  }
+  let port = rx.recv().unwrap();
+  ServerHandle {
+    port,
+    index,
+    handle,
+  }
+}
+
+/// Run one `ord` command line in-process. `Ok(has_output)` or the error
+/// message chain (top-level message first).
+pub fn run_cli(args: &[String]) -> Result<bool, String> {
+  let arguments = Arguments::try_parse_from(args).map_err(|err| format!("clap: {err}"))?;
+  match arguments.run() {
+    Ok(output) => Ok(output.is_some()),
+    Err(SnafuError::Anyhow { err }) => Err(
+      err
+        .chain()
+        .map(|cause| cause.to_string())
+        .collect::<Vec<String>>()
+        .join(" | "),
+    ),
+    Err(err) => Err(
+      err
+        .iter_chain()
+        .map(|cause| cause.to_string())
+        .collect::<Vec<String>>()
+        .join(" | "),
+    ),
+  }
+}
